@@ -1093,6 +1093,14 @@ func runR041(c *core.Ctx) {
 			if tv, ok := inf.Types[call.Fun]; ok && (tv.IsType() || tv.IsBuiltin()) {
 				continue
 			}
+			// package-level functions of bytes / strings / unicode never write
+			// through their arguments and have no state: still a pure predicate
+			if callee := core.Callee(inf, call); callee != nil && callee.Pkg() != nil && core.RecvNamed(callee) == nil {
+				switch callee.Pkg().Path() {
+				case "bytes", "strings", "unicode", "unicode/utf8":
+					continue
+				}
+			}
 			pure = false
 		}
 		if f, ok := inf.Defs[fd.Name].(*types.Func); ok && pure && usesCursor(fd) {
